@@ -1,5 +1,5 @@
 """C05 — every upstream block is returned exactly once, unchanged, in reverse order (DESIGN.md #C05)"""
-import subjects
+import subjects, common
 
 SPEC = dict(modules=["MemVerif.Props.C05"], gen_cfgs=("rwdi",),
             assumptions=["theorem is for growing/fixed block sources on a RawAllocator upstream; static/virtual sources emit no upstream events "
@@ -14,6 +14,9 @@ def run(ctx):
     # memory_arena itself (cached and uncached, growing and fixed source): allocate_block / deallocate_block / shrink_to_fit / moves
     st.update(subjects.run(ctx, "C05", subjects.ARENA, ["rwdi", "dbg"], n, 60, fail_positions=fails))
     st.update(subjects.run(ctx, "C05", subjects.POOL + subjects.COLL, ["rwdi", "dbg"], max(2, n // 2), 80, fail_positions=fails))
+    # move assignment / construction between arenas, every combination of used and cached blocks on both sides (no model: upstream ledger)
+    exs = subjects.exes(ctx, ["rwdi", "dbg"], ["subj_stack"])["subj_stack"]
+    st.update(common.run_subjects(ctx, "C05", exs, [dict(subject="arena-assign", cfg=c, seed=ctx.seed, nops=1) for c in ("rwdi", "dbg")], use_driver=False))
     ctx.coverage["rule"] = ("memory_arena driven directly (cached/uncached x growing/fixed: allocate_block, deallocate_block, shrink_to_fit, owns, size/cache_size/capacity/"
                             "next_block_size, move, move assignment, destruction) and every arena client (memory_stack: cached arena; pools, collections: uncached; iteration_allocator: bare block source) "
                             "over growing/fixed/static sources, histories with unwinds, shrink_to_fit, moves, move assignment and destruction, "
